@@ -136,10 +136,12 @@ def answer (s : Sys) : String :=
   let sec (name : String) (items : List String) : String := name ++ " " ++ canon items
   let rows := allRows.map fun r => sec (rowName r) ((es.filter fun e => e.row = r && e.linked).map (showEmit s))
   " | ".intercalate (
-    [ "ok wf=" ++ showBool (wf s),
+    [ "ok wf=" ++ showBool (wf s) ++ " hwf=" ++ showBool (hierWf s),
       sec "files" ((written s).map showFile),
       sec "anchors" ((pages s).flatMap fun p => (anchorsOf s (pageFile s p)).map fun a => showFile (pageFile s p) ++ ">" ++ Proto.encodeStr a),
       sec "classanchors" ((anchorsOf s (.summary .classIndex)).map Proto.encodeStr),
+      sec "letters" ((letters s).map fun c => Proto.encodeStr [c]),
+      sec "letterlinks" ((letterLinks s).map fun (a, b) => Proto.encodeStr [a] ++ ">" ++ Proto.encodeStr [b]),
       sec "classtexts" ((classIndexTexts s).map fun (n, m) => Proto.encodeStr n ++ ">" ++ showBool m),
       sec "search" ((searchDocs s).map fun o => Proto.encodeStr (fullName s o)),
       sec "inventory" ((inventory s).map fun o => Proto.encodeStr (fullName s o) ++ ">" ++ showUrl (url s o)),
